@@ -107,6 +107,28 @@ def check(ctx: Ctx) -> None:
     if not okx:
         ctx.violation('C09.j', wfn.qualname, 'the joint receive filter `%s` times the unwhitened channel normalises to `%s`, not to the identity'
                       % (w.v.pretty()[:90], l.pretty()[:90]), wfn.path, split[0][1].lineno, operand='inverts-unwhitened')
+    # ------------------------------------------------------------------ C09.k
+    from ..dsf import must_store_on_all_paths
+    ctx.rule('C09.k', 'the metric setter of EnhancedBD stores its coupled attributes (metric name, metric function, extra arguments) on EVERY '
+                      'normal path: a path that returns without storing one of them keeps the value of the previous call (a re-configuration '
+                      'with the same metric name and new arguments must take effect)', floor=2)
+    ecls = M.cls('EnhancedBD')
+    sfn = M.lookup_method(ecls, 'set_ext_int_handling_metric')
+    if sfn is None:
+        ctx.error('C09.k: EnhancedBD.set_ext_int_handling_metric vanished')
+    coupled = sorted({is_self_attr(t_, sfn.self_name or 'self') for n_ in walk_no_nested(sfn.node) if isinstance(n_, ast.Assign)
+                      for t_ in n_.targets if is_self_attr(t_, sfn.self_name or 'self')})
+    if len(coupled) < 2:
+        ctx.error('C09.k: the metric setter stores %s (two or more coupled attributes expected; cannot tell)' % coupled)
+    for a_ in coupled:
+        construct = 'EnhancedBD.set_ext_int_handling_metric:' + a_
+        ctx.instance('C09.k', construct)
+        okk, _f = must_store_on_all_paths(M, ecls, 'set_ext_int_handling_metric', a_)
+        ctx.obligation('C09.k', construct, okk, {'attribute': a_, 'coupled_with': [c_ for c_ in coupled if c_ != a_]})
+        if not okk:
+            ctx.violation('C09.k', 'EnhancedBD.set_ext_int_handling_metric', 'a normal exit is reachable without a store to `%s`, which the other '
+                          'paths store together with %s: the previous value survives a re-configuration' % (a_, [c_ for c_ in coupled if c_ != a_]),
+                          sfn.path, sfn.lineno, operand='coupled:' + a_)
     # ------------------------------------------------------------------ C09.h
     ctx.rule('C09.h', 'receive filters are formed with the PSEUDO-inverse of the effective channel: water-filling may give a stream zero power '
                       '(a zero column), for which inv/solve raise while pinv still inverts every powered stream', floor=2)
